@@ -36,7 +36,7 @@ MIN_NONTRIVIAL = {"quick": 300, "thorough": 6000}
 REACH_FLOORS = {"examples_expected": 1000, "cases_drawn": 800, "engine_runs": 5, "operations_without_examples": 20}
 SHARD_TIMEOUT = {"quick": 900, "thorough": 5400}
 
-PLACEMENTS = ["param_example", "param_examples", "param_schema_example", "param_schema_examples", "media_example", "media_examples", "media_examples_ref", "body_schema_example", "property_example", "branch_example", "falsy_property_example", "allof_property_example", "unsendable_header_example"]
+PLACEMENTS = ["param_example", "param_examples", "param_schema_example", "param_schema_examples", "media_example", "media_examples", "media_examples_ref", "body_schema_example", "property_example", "branch_example", "falsy_property_example", "allof_property_example", "unsendable_header_example", "untyped_nested_property_example"]
 
 
 def plan(tier, seed):
@@ -146,6 +146,11 @@ def gen_document(rng, version):
         if rng.random() < 0.5:
             body_schema["required"] = ["name", "owner"]
         expected.append({"op": label, "where": ("body", ("sub", "owner", "role")), "value": v, "placement": "allof_property_example"})
+    if "untyped_nested_property_example" in chosen:
+        # a property described by `properties` / `items` without an explicit `type`: its nested examples count all the same
+        v = marker.string()
+        body_schema["properties"]["meta"] = {"properties": {"deep": {"type": "string", "example": v}, "other": {"type": "integer"}}}
+        expected.append({"op": label, "where": ("body", ("sub", "meta", "deep")), "value": v, "placement": "untyped_nested_property_example"})
     if "branch_example" in chosen:
         v = marker.string()
         body_schema["properties"]["kind"]["anyOf"][0]["example"] = v
